@@ -182,7 +182,7 @@ func ruleAdminStar(c *Ctx) {
 			return
 		}
 		f, _, ok := fieldAddr(st.Addr)
-		if !ok || (f.Name() != "PullAccess" && f.Name() != "PushAccess") {
+		if !ok || (theProgram.baseFieldName(f) != "PullAccess" && theProgram.baseFieldName(f) != "PushAccess") {
 			return
 		}
 		k, isc := st.Val.(*ssa.Const)
@@ -250,7 +250,7 @@ func ruleSplitSemicolon(c *Ctx) {
 	usesSemi := false
 	instrs(fn, func(ins ssa.Instruction) {
 		cc := callCommon(ins)
-		if cc == nil || cc.StaticCallee() == nil || cc.StaticCallee().Name() != "Scan" {
+		if cc == nil || cc.StaticCallee() == nil || baseFuncName(cc.StaticCallee()) != "Scan" {
 			return
 		}
 		if u, ok := cc.Args[0].(*ssa.UnOp); ok {
@@ -273,7 +273,7 @@ func ruleSplitSemicolon(c *Ctx) {
 				if !ok || g.Name() != "Semicolon" {
 					return
 				}
-				if call, ok := st.Val.(*ssa.Call); ok && call.Call.StaticCallee() != nil && call.Call.StaticCallee().Name() == "NewScanner" {
+				if call, ok := st.Val.(*ssa.Call); ok && call.Call.StaticCallee() != nil && baseFuncName(call.Call.StaticCallee()) == "NewScanner" {
 					if k, ok := evalInt(call.Call.Args[0]); ok && k == ';' {
 						delimOK = true
 					}
@@ -409,7 +409,7 @@ func ruleSegmentCountGuard(c *Ctx) {
 			return false
 		}
 		f, _, ok := fieldLoad(lc.Call.Args[0])
-		return ok && f.Name() == "parts"
+		return ok && theProgram.baseFieldName(f) == "parts"
 	}
 	// Path facts: which comparisons of the segment count with len(parts) hold, and wildcardEnd; a
 	// `return true` (or falling into the compare loop) must not be reachable with count < len or with
@@ -421,7 +421,7 @@ func ruleSegmentCountGuard(c *Ctx) {
 		Branch: func(s st, cond ssa.Value, taken bool) (st, bool) {
 			cv, neg := condNeg(cond)
 			val := taken != neg
-			if f, _, ok := fieldLoad(cv); ok && f.Name() == "wildcardEnd" {
+			if f, _, ok := fieldLoad(cv); ok && theProgram.baseFieldName(f) == "wildcardEnd" {
 				w := int8(2)
 				if val {
 					w = 1
@@ -515,7 +515,7 @@ func ruleSegmentCountGuard(c *Ctx) {
 	// no path reaches the compare loop (the Scan call) with count<len, or with count>len and !wildcardEnd
 	res.Visit(func(ins ssa.Instruction, s st) {
 		cc := callCommon(ins)
-		if cc == nil || cc.StaticCallee() == nil || cc.StaticCallee().Name() != "Scan" {
+		if cc == nil || cc.StaticCallee() == nil || baseFuncName(cc.StaticCallee()) != "Scan" {
 			return
 		}
 		if s.Rel == 1 {
